@@ -294,8 +294,10 @@ class EFloatFormat(EncodableFormat):
                     mbits = 0
                 case EFloatNanKind.MAX_VAL:
                     if self.pmax == 1:
+                        # no mantissa field: infinity is the exponent code
+                        # just below the all-ones NaN code
                         ebits = bitmask(self.es) - 1
-                        mbits = 1
+                        mbits = 0
                     else:
                         ebits = bitmask(self.es)
                         mbits = bitmask(self.m) - 1
